@@ -53,6 +53,7 @@ package drpcstream
 //@   requires err != nil
 //@   loop 1 invariant [inv] pbInv(pb) && pb == pb0 && err == err0 && (old(pb.err) != nil ==> pb.err == old(pb.err))
 //@   check [closed] pb.err != nil && !pb.set && !pb.held
+//@   site (*Cond).Wait assert [C04.waits-while-lent] pb.held
 //@   check [first]  old(pb.err) != nil ==> pb.err == old(pb.err)
 //@   ensures [err]  pb.err != nil
 
@@ -64,6 +65,7 @@ package drpcstream
 //@   loop 2 invariant [inv] pbInv(pb) && pb == pb0 && data == data0
 //@   check [drained] pb.err != nil || (!pb.set && !pb.held)
 //@   site (*Cond).Wait#1 assert [C04,C05.no-wait-when-closed] pb.err == nil
+//@   site (*Cond).Wait#2 assert [C01.waits-until-consumed] pb.set || pb.held
 
 //@ func (*packetBuffer).Get
 //@   props C03 C01 C04 C05
